@@ -7,12 +7,15 @@ EXTENDS System
 \* q4  $[?match(@.s, 'a.') || search(@.s, 'a.')]   same pattern text in match and search
 \* q5  $.k3[2]                          out of range for the subclass's [-1, 1]
 \* q6  $[?@.a == ]                      syntactically invalid
+\* q7  $..s                             a descendant segment whose first match lies below the root (find_one abandons
+\*                                      the traversal with siblings still pending)
 MCQText == [q1 |-> <<36,91,63,64,46,97,32,61,61,32,36,46,120,93>>,
             q2 |-> <<36,91,63,102,40,64,46,97,41,93>>,
             q3 |-> <<36,46,46,91,63,64,91,63,64,32,61,61,32,36,46,120,93,93>>,
             q4 |-> <<36,91,63,109,97,116,99,104,40,64,46,115,44,32,39,97,46,39,41,32,124,124,32,115,101,97,114,99,104,40,64,46,115,44,32,39,97,46,39,41,93>>,
             q5 |-> <<36,46,107,51,91,50,93>>,
-            q6 |-> <<36,91,63,64,46,97,32,61,61,32,93>>]
+            q6 |-> <<36,91,63,64,46,97,32,61,61,32,93>>,
+            q7 |-> <<36,46,46,115>>]
 
 A == <<97>>   X == <<120>>   S == <<115>>
 K1 == <<107, 49>>  K2 == <<107, 50>>  K3 == <<107, 51>>
